@@ -153,12 +153,34 @@ impl VectorZoneMap {
                 true
             }
             DistanceMetric::Cosine => {
-                // For cosine, we use angular bounds
-                // Convert threshold from cosine distance to angle
-                // cosine_distance = 1 - cos(angle), so cos(angle) = 1 - threshold
-                // This is complex, so for now just use centroid-based pruning
-                let centroid_dist = cosine_distance(query, &self.centroid);
-                centroid_dist - self.max_radius <= threshold
+                // Every vector v in the block lies within `max_radius` (Euclidean) of the
+                // centroid c. With q' = q / |q| that gives q'.v <= q'.c + r and
+                // |c| - r <= |v| <= |c| + r, which bounds the cosine similarity of any
+                // member from above, hence its cosine distance from below.
+                let norm_q = l2_norm(query);
+                if norm_q == 0.0 {
+                    // A zero query is at distance 1.0 from everything.
+                    return 1.0 <= threshold;
+                }
+                let norm_c = l2_norm(&self.centroid);
+                if norm_c <= self.max_radius {
+                    // The block surrounds the origin: any direction (or a zero vector,
+                    // whose distance is 1.0) may be present, so nothing can be said.
+                    return true;
+                }
+                let projection: f32 = query
+                    .iter()
+                    .zip(&self.centroid)
+                    .map(|(q, c)| q * c)
+                    .sum::<f32>()
+                    / norm_q;
+                let upper = projection + self.max_radius;
+                let max_similarity = if upper >= 0.0 {
+                    upper / (norm_c - self.max_radius)
+                } else {
+                    upper / (norm_c + self.max_radius)
+                };
+                1.0 - max_similarity <= threshold
             }
             DistanceMetric::DotProduct | DistanceMetric::Manhattan => {
                 // Conservative: don't prune for these metrics yet
@@ -266,17 +288,9 @@ fn euclidean_distance(a: &[f32], b: &[f32]) -> f32 {
         .sqrt()
 }
 
-/// Computes cosine distance (1 - cosine_similarity) between two vectors.
-fn cosine_distance(a: &[f32], b: &[f32]) -> f32 {
-    let dot: f32 = a.iter().zip(b.iter()).map(|(x, y)| x * y).sum();
-    let norm_a: f32 = a.iter().map(|x| x * x).sum::<f32>().sqrt();
-    let norm_b: f32 = b.iter().map(|x| x * x).sum::<f32>().sqrt();
-
-    if norm_a == 0.0 || norm_b == 0.0 {
-        return 1.0; // Maximum distance for zero vectors
-    }
-
-    1.0 - (dot / (norm_a * norm_b))
+/// Computes the L2 norm of a vector.
+fn l2_norm(a: &[f32]) -> f32 {
+    a.iter().map(|x| x * x).sum::<f32>().sqrt()
 }
 
 #[cfg(test)]
